@@ -139,6 +139,16 @@ let run_io_case hd body =
   | ["TXTW"; "U"; lk; n] -> let o = List.map parse_uop (opsof body) in emit_ms (u_txtw_case !variant (tlabel_of lk) (ni n) o) txtw_spec
   | "NOFILE" :: _ -> let l = [List.init 8 (fun _ -> z_of_int (-103))] in zline "M" l; zline "S" l
   | _ -> failwith "bad IO case"
+let run_conc_case hd body =
+  let opsof str = List.filter (fun t -> t <> []) (List.map toks (String.split_on_char ';' str)) in
+  let parts = String.split_on_char '|' body in
+  let a, q, vs = (match parts with [a; q; vs] -> opsof a, toks q, toks vs | [a; q] -> opsof a, toks q, [] | _ -> failwith "bad CONC case") in
+  let tt, r, s, t = (match q with [tt; r; s; t] -> ni tt, ni r, ni s, ni t | _ -> failwith "bad CONC parameters") in
+  let so = List.map ni vs in
+  match hd with
+  | ["CONC"; "D"; lk; n] -> let hs = lk <> "none" in let o = List.map parse_dop a in emit_ms (d_conc_case hs !variant (ni n) o tt r so s t) (d_conc_spec hs (ni n) o tt r)
+  | ["CONC"; "U"; lk; n] -> let hs = lk <> "none" in let o = List.map parse_uop a in emit_ms (u_conc_case hs !variant (ni n) o tt r so s t) (u_conc_spec hs (ni n) o tt r)
+  | _ -> failwith "bad CONC case"
 let run_case line =
   match String.index_opt line ':' with
   | None -> failwith ("bad case: " ^ line)
@@ -147,6 +157,7 @@ let run_case line =
     if (match hd with "EQ" :: _ -> true | _ -> false) then run_eq_case hd body else
     if (match hd with "CV" :: _ | "EL" :: _ -> true | _ -> false) then run_conv_case hd body else
     if (match hd with "SUB" :: _ -> true | _ -> false) then run_sub_case hd body else
+    if (match hd with "CONC" :: _ -> true | _ -> false) then run_conc_case hd body else
     if (match hd with "PATH" :: _ | "DJ" :: _ -> true | _ -> false) then run_path_case hd body else
     if (match hd with "BIN" :: _ | "BINW" :: _ | "TXT" :: _ | "TXTW" :: _ | "NOFILE" :: _ -> true | _ -> false) then run_io_case hd body else
     let ops = List.filter (fun t -> t <> []) (List.map toks (String.split_on_char ';' body)) in
